@@ -90,6 +90,19 @@ CAT = [
     ["oracle", "STORAGE (INITIAL 8M NEXT 2M)", {"storage": {"initial": "8M", "next": "2M"}}, {"table_properties": {"storage": {"initial": "8M", "next": "2M"}}}],
     ["bigquery", "OPTIONS (description='e')", {"options": [{"description": "'e'"}]}, {"table_properties": {"options": [{"description": "'e'"}]}}],
     ["snowflake", "WITH TAG (t2='v2')", {"with_tag": "t2='v2'"}, {"table_properties": {"with_tag": "t2='v2'"}}],
+    # clause values / list elements that are spelled like grammar keywords (first and later positions)
+    ["hql", "CLUSTERED BY (a, order) INTO 4 BUCKETS", {"clustered_by": ["a", "order"], "into_buckets": "4"}, {"table_properties": {"clustered_by": ["a", "order"], "into_buckets": "4"}}],
+    ["hql", "CLUSTERED BY (order, a) INTO 4 BUCKETS", {"clustered_by": ["order", "a"], "into_buckets": "4"}, {"table_properties": {"clustered_by": ["order", "a"], "into_buckets": "4"}}],
+    ["hql", "PARTITIONED BY (dt string, set int)", {"partitioned_by": [{"name": "dt", "type": "string", "size": None}, {"name": "set", "type": "int", "size": None}]},
+     {"partitioned_by": [{"name": "dt", "type": "string", "size": None}, {"name": "set", "type": "int", "size": None}]}],
+    ["hql", "SKEWED BY (order) ON (1, 2)", {"skewed_by": {"key": "order", "on": ["1", "2"]}}, {"table_properties": {"skewed_by": {"key": "order", "on": ["1", "2"]}}}],
+    ["snowflake", "CLUSTER BY (a, comment)", {"cluster_by": ["a", "comment"]}, {"table_properties": {"cluster_by": ["a", "comment"]}}],
+    ["postgres", "PARTITION BY RANGE (a, order)", {"partition_by": {"columns": ["a", "order"], "type": "RANGE"}}, {"partition_by": {"columns": ["a", "order"], "type": "RANGE"}}],
+    ["oracle", "TABLESPACE temporary", {"tablespace": {"tablespace_name": "temporary", "properties": None, "type": None, "temporary": False}},
+     {"tablespace": {"tablespace_name": "temporary", "properties": None, "type": None, "temporary": False}}],
+    ["oracle", "TABLESPACE index", {"tablespace": {"tablespace_name": "index", "properties": None, "type": None, "temporary": False}},
+     {"tablespace": {"tablespace_name": "index", "properties": None, "type": None, "temporary": False}}],
+    ["redshift", "DISTKEY(order)", {"distkey": "order"}, {"table_properties": {"distkey": "order"}}],
 ]
 BODY2 = "CREATE TABLE s.t2 (a int, b varchar(10), dt date)"
 BODIES = {
